@@ -364,12 +364,19 @@ def oracle_equality(ctx: Ctx, case):
     a, b = build(da), build(db)
     exp = desc_equal(da, db)
     tags = {"relation": case["relation"]}
+    # the same key->space mapping in another insertion order: the statement does not say whether
+    # that is "equal structure"; only symmetry and hash agreement are demanded there
+    open_question = case["relation"] == "reordered"
+    gots = []
     for x, y, dx, dy in ((a, b, da, db), (b, a, db, da)):
         try:
             got = x == y
         except Exception as exc:
             ctx.fail(f"C14/eq-raises/{dx['kind']}/{type(exc).__name__}", tags=tags, a=dx, b=dy, error=str(exc)[:200])
             return
+        gots.append(bool(got))
+        if open_question:
+            continue
         if bool(got) != exp:
             ctx.fail(f"C14/eq-wrong/{dx['kind']}/{'unequal-spaces-compare-equal' if not exp else 'equal-spaces-compare-unequal'}/{case['relation']}", tags=tags, a=dx, b=dy, expected=exp)
             return
@@ -380,9 +387,10 @@ def oracle_equality(ctx: Ctx, case):
         except Exception as exc:
             ctx.fail(f"C14/hash-raises/{dx['kind']}/{type(exc).__name__}", tags=tags, space=dx, error=str(exc)[:200])
             return
-    if exp:
+    ctx.check(gots[0] == gots[1], f"C14/eq-not-symmetric/{da['kind']}", tags=tags, a=da, b=db)
+    if exp or (open_question and gots[0]):
         ctx.check(hs[0] == hs[1], f"C14/equal-spaces-hash-differently/{da['kind']}", tags=tags, a=da, b=db)
-    ctx.count(nontrivial=case["relation"] in ("perturbed", "extended", "zero_sign", "reordered"), classes=[case["relation"], da["kind"]], key=[da, db])
+    ctx.count(nontrivial=case["relation"] in ("perturbed", "extended", "zero_sign", "reordered", "swapped"), classes=[case["relation"], da["kind"]], key=[da, db])
 
 
 def oracle_gym_roundtrip(ctx: Ctx, case):
@@ -457,7 +465,7 @@ def _perturb(draw, d):
 @st.composite
 def equality_cases(draw):
     a = draw(space_desc())
-    rel = draw(st.sampled_from(["copy", "perturbed", "extended", "independent", "zero_sign", "reordered"]))
+    rel = draw(st.sampled_from(["copy", "perturbed", "extended", "independent", "zero_sign", "reordered", "swapped"]))
     if rel == "copy":
         b = copy.deepcopy(a)
     elif rel == "perturbed":
@@ -481,6 +489,14 @@ def equality_cases(draw):
         inner[1] = _perturb(draw, inner[0]) if draw(st.booleans()) else inner[1]
         a = {"kind": "dict", "items": [["a", inner[0]], ["b", inner[1]]]}
         b = {"kind": "dict", "items": [["b", inner[1]], ["a", inner[0]]]}
+    elif rel == "swapped":
+        # same key set, same sub-spaces by position, but the keys map to different sub-spaces
+        x = draw(space_desc())
+        y = _perturb(draw, x)
+        a = {"kind": "dict", "items": [["a", x], ["b", y]]}
+        b = {"kind": "dict", "items": [["b", x], ["a", y]]}
+        if draw(st.booleans()):
+            a, b = {"kind": "tuple", "items": [a]}, {"kind": "tuple", "items": [b]}
     else:
         b = draw(space_desc())
     return {"a": a, "b": b, "relation": rel}
